@@ -455,7 +455,9 @@ class Features:
     switches every flag on to hunt those defects; every hazard flag names the defect it provokes.
     """
 
-    inheritance: bool = True            #: class DAGs (chains, diamonds, multi-root)
+    inheritance: bool = True            #: class DAGs (chains, multi-root, multiple bases)
+    diamonds: bool = True               #: multiple bases may share an ancestor (NOTE: with a pattern-constrained inherited property the
+                                        #: jsonschema generator asserts in tightening_steps_from_other_to_that_constraints)
     constrained_primitives: bool = True  #: constrained primitives incl. inheritance chains
     enums: bool = True
     constants: bool = True              #: primitive constants (bool/int/float/str)
@@ -836,12 +838,20 @@ class _Gen:
         for i in range(n):
             ps: List[int] = []
             if ft.inheritance and i > 0 and self.chance(0.6):
-                k = 1 if self.chance(0.75) else 2
+                k = 1 if self.chance(0.7) else 2
                 ps = sorted(rng.sample(range(i), min(k, i)))
+                if k == 2 and ft.diamonds and self.chance(0.5):
+                    # prefer a diamond: two unrelated classes with a common ancestor
+                    pairs = [(a, b) for a in range(i) for b in range(a + 1, i)
+                             if _anc_idx(parents, a) & _anc_idx(parents, b) and a not in _anc_idx(parents, b) and b not in _anc_idx(parents, a)]
+                    if pairs:
+                        ps = list(self.pick(pairs))
                 # keep CPython able to build the class: drop a base that is an ancestor of another base
                 ps = [p for p in ps if not any(p in _anc_idx(parents, q) for q in ps if q != p)]
+                if len(ps) == 2 and not ft.diamonds and (_anc_idx(parents, ps[0]) & _anc_idx(parents, ps[1])):
+                    ps = ps[:1]
             parents.append(ps)
-        abstract = [self.chance(0.3) for _ in range(n)]
+        abstract = [self.chance(0.4) for _ in range(n)]
         if not ft.abstract_without_concrete_descendants:
             for i in range(n):
                 desc = [j for j in range(n) if i in _anc_idx(parents, j)]
@@ -1673,14 +1683,13 @@ def mutants(mm: MM, rng: Optional[random.Random] = None, max_sites_per_rule: int
                     a.default = {"int": "0", "str": '""', "bool": "False", "float": "0.0"}.get(getattr(t0, "name", ""), "[]") if isinstance(t0, Prim) else ("[]" if isinstance(t0, ListOf) else "0")
             m.cls(n).ctor = ctor
             yield emit("non_none_default", m)
-            if opt_args[-1].name == ctor0.args[-1].name:
-                m = clone()
-                ctor = copy.deepcopy(ctor0)
-                ctor.args[-1].default = None
-                # keep Python happy: an argument without default after ones with default is a syntax error
-                if all(a.default is None for a in ctor.args):
-                    m.cls(n).ctor = ctor
-                    yield emit("optional_without_default", m)
+            # no default at all (on every optional argument: Python wants defaults to be trailing)
+            m = clone()
+            ctor = copy.deepcopy(ctor0)
+            for a in ctor.args:
+                a.default = None
+            m.cls(n).ctor = ctor
+            yield emit("optional_without_default", m)
     for n in sites(with_bases):
         ctor0 = default_ctor(mm, n)
         if ctor0 is not None and ctor0.super_calls and (ctor0.super_calls[0][1] or ctor0.super_calls[0][2]):
